@@ -431,33 +431,39 @@ Definition lazy_complex_ns (owner : aclass) (inherited : str) : str :=
 Definition var_namespace (ns : str) : str :=
   match ns with 35 :: _ => [] | _ => ns end.
 
+(* one field of class `c` whose members inherit `ns_children`; `rec` decodes a class *)
+Definition decode_attr (rec : aclass -> str -> list item) (te : tenv) (all : list aclass)
+           (c : aclass) (ns_children : str) (a : attr) : item :=
+  let req := required_of a in
+  let ns := match a_namespace a with Some n => var_namespace n | None => ns_children end in
+  let tr := TRef (fst (a_type a)) (snd (a_type a)) in
+  if a_native a then Leaf ns (a_name a) req (TNative (snd (a_type a)))
+  else if a_forward a then
+    match find (fun i => qn_eqb (c_qname i) (a_type a)) (c_inner c) with
+    | Some i => Node ns (a_name a) req (rec i ns_children)
+    | None => Leaf ns (a_name a) req tr
+    end
+  else
+    match find_element_class all (a_type a) with
+    | Some mc => Node ns (a_name a) req (rec mc ns_children)
+    | None =>
+        if ostr_eqb (a_namespace a) (Some m_lazy) then
+          match tenv_get te (a_type a) with
+          | Some (Some base) => Leaf ns (a_name a) req (TNative base)
+          | Some None => Leaf ns (a_name a) req tr
+          | None => Leaf (lazy_complex_ns c ns_children) (a_name a) req tr
+          end
+        else Leaf ns (a_name a) req tr
+    end.
+
+Definition children_ns (c : aclass) (inherited : str) : str :=
+  match c_namespace c with Some (x :: n) => x :: n | _ => inherited end.
+
 Fixpoint decode_class (fuel : nat) (te : tenv) (all : list aclass) (c : aclass) (inherited : str) : list item :=
   match fuel with
   | O => []
   | S fuel' =>
-      let ns_children := match c_namespace c with Some (x :: n) => x :: n | _ => inherited end in
-      map (fun a =>
-        let req := required_of a in
-        let ns := match a_namespace a with Some n => var_namespace n | None => ns_children end in
-        if a_native a then Leaf ns (a_name a) req (TNative (snd (a_type a)))
-        else if a_forward a then
-          match find (fun i => qn_eqb (c_qname i) (a_type a)) (c_inner c) with
-          | Some i => Node ns (a_name a) req (decode_class fuel' te all i ns_children)
-          | None => Leaf ns (a_name a) req (TRef (fst (a_type a)) (snd (a_type a)))
-          end
-        else
-          let lazy := ostr_eqb (a_namespace a) (Some m_lazy) in
-          match find_element_class all (a_type a) with
-          | Some mc => Node ns (a_name a) req (decode_class fuel' te all mc ns_children)
-          | None =>
-              if lazy then
-                match tenv_get te (a_type a) with
-                | Some (Some base) => Leaf ns (a_name a) req (TNative base)
-                | Some None => Leaf ns (a_name a) req (TRef (fst (a_type a)) (snd (a_type a)))
-                | None => Leaf (lazy_complex_ns c ns_children) (a_name a) req (TRef (fst (a_type a)) (snd (a_type a)))
-                end
-              else Leaf ns (a_name a) req (TRef (fst (a_type a)) (snd (a_type a)))
-          end) (c_attrs c)
+      map (decode_attr (decode_class fuel' te all) te all c (children_ns c inherited)) (c_attrs c)
   end.
 
 Definition decode_root (te : tenv) (all : list aclass) (c : aclass) : item :=
